@@ -14,7 +14,7 @@ static const char *op_names[OP_N] = {"online", "offline", "read", "qs", "update"
 static const char *cfg_names[3] = {"M=SimMutex", "M=ticket_spinlock", "M=simple_spinlock"};
 static const uint64_t RECLAIMED = 0xDEADDEADDEADDEADull;
 
-static int P_cb, P_rereg, P_deferred, P_join_mid, P_leave_mid, P_multi_pending, P_barrier_ret, P_deferred_stop, P_reads, P_held_reads, P_offline_run, P_closing_rounds, P_sync_reclaim, P_skipped, P_recycled, P_nested_run, P_update_in_cb, P_aged_domain;
+static int P_cb, P_rereg, P_deferred, P_join_mid, P_leave_mid, P_multi_pending, P_barrier_ret, P_deferred_stop, P_reads, P_held_reads, P_offline_run, P_closing_rounds, P_sync_reclaim, P_skipped, P_recycled, P_nested_run, P_update_in_cb, P_aged_domain, P_offline_register;
 
 struct Interval { uint64_t begin, end; VC clk; };
 struct Agent {
@@ -49,7 +49,7 @@ struct QsEngine : Engine {
 		P_cb = probe_id("callbacks_run"); P_rereg = probe_id("callback_reregistered_node"); P_deferred = probe_id("deferred_period_seen");
 		P_join_mid = probe_id("agent_joined_while_barrier_pending"); P_leave_mid = probe_id("agent_left_while_barrier_pending"); P_multi_pending = probe_id("two_or_more_barriers_pending");
 		P_barrier_ret = probe_id("quiescent_barrier_returned"); P_deferred_stop = probe_id("deferred_offline_stop"); P_reads = probe_id("reads"); P_held_reads = probe_id("held_pointer_revalidated");
-		P_offline_run = probe_id("run_while_offline"); P_closing_rounds = probe_id("closing_rounds"); P_sync_reclaim = probe_id("reclaim_after_quiescent_barrier"); P_skipped = probe_id("ops_skipped_precondition"); P_recycled = probe_id("reclaimed_object_recycled_and_registered_again"); P_nested_run = probe_id("run_called_from_inside_a_callback"); P_update_in_cb = probe_id("await_barrier_for_another_node_from_inside_a_callback"); P_aged_domain = probe_id("aged_domain_period_counter_near_2^32");
+		P_offline_run = probe_id("run_while_offline"); P_closing_rounds = probe_id("closing_rounds"); P_sync_reclaim = probe_id("reclaim_after_quiescent_barrier"); P_skipped = probe_id("ops_skipped_precondition"); P_recycled = probe_id("reclaimed_object_recycled_and_registered_again"); P_nested_run = probe_id("run_called_from_inside_a_callback"); P_update_in_cb = probe_id("await_barrier_for_another_node_from_inside_a_callback"); P_aged_domain = probe_id("aged_domain_period_counter_near_2^32"); P_offline_register = probe_id("await_barrier_by_an_offline_agent");
 	}
 	const char *name() override { return "simqs"; }
 	const char *op_name(int k) override { return k >= 0 && k < OP_N ? op_names[k] : "?"; }
@@ -256,7 +256,9 @@ struct QsEngine : Engine {
 			do_qs(me);
 			break;
 		case OP_UPDATE: {
-			if (a.st != 1) { probe(P_skipped); return; }
+			// (await_barrier has no online precondition: an agent that is offline may retire an object too)
+			if (a.st != 1 && !(a.st == 0 && a.constructed)) { probe(P_skipped); return; }
+			if (a.st == 0) probe(P_offline_register);
 			int n = new_obj(op.a[1] != 0);
 			int old = (int)user_atomic_exchange(cell, 8, (uint64_t)n + 1) - 1;
 			Obj &o = objs[old];
